@@ -111,6 +111,28 @@ func c23Program(r *engine.Rand) (code, expect []byte, reads int) {
 				emit(0xe5, 0x21, 0x01, 0xff, 0x36, v, 0xe1) // PUSH HL ; LD HL,FF01 ; LD (HL),v ; POP HL
 			}
 			expect = append(expect, v)
+			if r.Chance(1, 3) {
+				// read-modify-write instructions on SB: the read returns FF, the result is a write like any other
+				// (carry cleared first so that the rotates through carry are determined)
+				var ops []byte
+				var w uint8
+				switch r.Intn(4) {
+				case 0:
+					ops, w = []byte{0x34}, 0x00
+				case 1:
+					ops, w = []byte{0x35}, 0xfe
+				case 2:
+					b := uint8(r.Intn(8))
+					ops, w = []byte{0xcb, 0xc6 | b<<3}, 0xff // SET b,(HL)
+				default:
+					b := uint8(r.Intn(8))
+					ops, w = []byte{0xcb, 0x86 | b<<3}, 0xff&^(1<<b) // RES b,(HL)
+				}
+				emit(0xe5, 0x21, 0x01, 0xff)
+				emit(ops...)
+				emit(0xe1)
+				expect = append(expect, w)
+			}
 		default:
 			for j, m := 0, r.Intn(6); j < m; j++ {
 				emit(0x00)
@@ -146,8 +168,45 @@ func sbStore(m *machine.Machine) (bool, uint8) {
 		return uint16(rg.B)<<8|uint16(rg.C) == 0xff01, rg.A
 	case op == 0x12:
 		return uint16(rg.D)<<8|uint16(rg.E) == 0xff01, rg.A
+	case op == 0x34 || op == 0x35:
+		return hl == 0xff01, sbRMW(op, false, rg.F)
+	case op == 0xcb:
+		cb := m.Read(rg.PC + 1)
+		if cb&7 == 6 && cb>>6 != 1 {
+			return hl == 0xff01, sbRMW(cb, true, rg.F)
+		}
 	}
 	return false, 0
+}
+
+// sbRMW is the byte a read-modify-write instruction on SB stores: SB reads FF, the result of the
+// operation on FF is written back (BIT does not write).
+func sbRMW(op uint8, cb bool, f uint8) uint8 {
+	c := f >> 4 & 1
+	if !cb {
+		if op == 0x34 {
+			return 0x00
+		}
+		return 0xfe
+	}
+	bit := uint8(1) << (op >> 3 & 7)
+	switch op >> 6 {
+	case 2:
+		return 0xff &^ bit
+	case 3:
+		return 0xff
+	}
+	switch op >> 3 {
+	case 2: // RL
+		return 0xfe | c
+	case 3: // RR
+		return 0x7f | c<<7
+	case 4: // SLA
+		return 0xfe
+	case 7: // SRL
+		return 0x7f
+	}
+	return 0xff // RLC, RRC, SRA, SWAP of FF
 }
 
 func (c23) Execute(sc *engine.Scenario) *engine.Result {
